@@ -137,8 +137,9 @@ where
     }
 }
 
+/// Scans a binary encoded number without advancing over it, returns its value and encoded length.
 #[cold]
-fn binary_uint(input: &mut LineReader) -> Result<usize, ParseError> {
+fn binary_uint(input: &mut LineReader) -> Result<(usize, usize), ParseError> {
     // TODO optimize this
     let reader = input.reader();
 
@@ -170,9 +171,25 @@ fn binary_uint(input: &mut LineReader) -> Result<usize, ParseError> {
         value = next_value | (byte & 0x7f) as usize;
     }
 
-    reader.advance(byte_len);
+    Ok((value, byte_len))
+}
 
-    Ok(value)
+/// Advances over binary data, counting any line feeds among it as line ends so that the locations
+/// of later errors agree with the line numbers of the file.
+fn advance_binary(input: &mut LineReader, byte_len: usize) {
+    let mut newline_count = 0;
+    let mut last_newline = None;
+    for (offset, &byte) in input.reader.buf()[..byte_len].iter().enumerate() {
+        if byte == b'\n' {
+            newline_count += 1;
+            last_newline = Some(offset);
+        }
+    }
+    if let Some(offset) = last_newline {
+        input.line += newline_count;
+        input.line_start = input.reader.position() + offset + 1;
+    }
+    input.reader.advance(byte_len);
 }
 
 #[inline]
@@ -183,11 +200,13 @@ pub fn delta_code(
     reference: &str,
 ) -> Result<usize, ParseError> {
     input.reader().set_mark();
-    let delta = binary_uint(input)?;
+    let (delta, byte_len) = binary_uint(input)?;
 
     if delta > code {
         return delta_code_err(input, code, delta, target, reference);
     }
+
+    advance_binary(input, byte_len);
 
     Ok(code - delta)
 }
